@@ -56,6 +56,12 @@ def sim_case(draw, tier="quick"):
         mt = draw(st.sampled_from(["WIN", "WIN", "PLACE", "EACH_WAY"]))
         spec = world.default_market(mi, draw(st.integers(2, 4)), event=draw(st.integers(0, 1)))
         spec["market_type"] = mt
+        if draw(st.integers(0, 3)) == 0:
+            # asian-handicap style: the same selection id on several handicap lines that settle differently
+            nr_ = len(spec["runners"])
+            spec["market_type"] = mt = "ASIAN_HANDICAP"
+            spec["bsp_market"] = False
+            spec["runners"] = [{"id": 1001 + (i % 2), "hc": [-0.5, 0.5, -1.5, 1.5][i], "af": None} for i in range(nr_)]
         if mt == "EACH_WAY":
             spec["each_way_divisor"] = draw(st.sampled_from([3, 4, 5]))
         if mt == "PLACE":
@@ -167,9 +173,9 @@ def _eval_sim(sc, lb):
                                     "market %s: %d cleared-orders reports, blotter has %d orders" % (spec["id"], s_["meta"], n_orders), sc)
             # results delivered to orders (runner status at this closing update)
             if any_rec:
-                sel_ids = [r["id"] for r in spec["runners"]]
+                sel_ids = [(r["id"], r.get("hc", 0)) for r in spec["runners"]]
                 for o in any_rec["orders"]:
-                    exp = u.runner_status[sel_ids.index(o["sel"])]
+                    exp = u.runner_status[sel_ids.index((o["sel"], o["hc"]))]
                     if o["runner_status"] != exp:
                         raise Violation("order-result", (exp,), "order on %s has runner_status %s at the closing callback, closing book says %s" % (o["sel"], o["runner_status"], exp), sc)
                 if n_orders:
@@ -204,14 +210,14 @@ def _eval_sim(sc, lb):
                     raise Violation("middleware-state-not-released", (), "SimulatedMiddleware still holds analytics for %s" % spec["id"], sc)
             # settlement terms on every order
             winners = sum(1 for x in final.runner_status if x == "WINNER")
-            sel_ids = [r["id"] for r in spec["runners"]]
+            sel_ids = [(r["id"], r.get("hc", 0)) for r in spec["runners"]]
             for o in market.blotter:
                 exp_dh = winners if winners > spec["number_of_winners"] else None
-                if o.runner_status != final.runner_status[sel_ids.index(o.selection_id)] or o.market_type != spec["market_type"] \
+                if o.runner_status != final.runner_status[sel_ids.index((o.selection_id, o.handicap))] or o.market_type != spec["market_type"] \
                         or o.each_way_divisor != spec.get("each_way_divisor") or (exp_dh and o.number_of_dead_heat_winners != exp_dh):
                     raise Violation("order-settlement-terms", (), "order terms (%s, %s, %s, %s) vs closing book (%s, %s, %s, %s)" % (
                         o.runner_status, o.market_type, o.each_way_divisor, o.number_of_dead_heat_winners,
-                        final.runner_status[sel_ids.index(o.selection_id)], spec["market_type"], spec.get("each_way_divisor"), exp_dh), sc)
+                        final.runner_status[sel_ids.index((o.selection_id, o.handicap))], spec["market_type"], spec.get("each_way_divisor"), exp_dh), sc)
     return nontrivial, classes
 
 
